@@ -210,7 +210,7 @@ func (env *sessEnv) close() {
 	cc := env.run.conn
 	env.run.mu.Unlock()
 	if cc != nil {
-		cc.Close()
+		srv.HardClose(cc)
 	}
 	if env.logf != nil {
 		env.logf.Close()
